@@ -355,6 +355,7 @@ class Array:
             self.ndim == 0
             and eager_value is not None
             and isinstance(eager_value.item(), int)
+            and not isinstance(eager_value.item(), bool)
         ):
             return int(eager_value)
         else:
